@@ -36,6 +36,7 @@ type PropSpec struct {
 	ThoroughSec int
 	LevelText   string
 	LevelNote   string
+	ModelDiff   bool     // relies on the BSI model: run the native model-vs-library differential in every run
 	Lemmas      []string // rewrite lemmas the harness terms rely on; discharged by cvc5 in every run
 }
 
@@ -303,6 +304,22 @@ func cmdCheck(args []string) int {
 		}
 	}
 
+	// ---- dependency model validation (native differential against the real library) ----
+	modelDiffN, modelDiffBad := 0, 0
+	if spec.ModelDiff {
+		if err := waitBuild(); err != nil {
+			inconclusive = append(inconclusive, "reason=harness-build "+err.Error())
+		} else {
+			n, bad, lines, err := rp.runModelDiff(seed)
+			modelDiffN, modelDiffBad = n, bad
+			if err != nil {
+				inconclusive = append(inconclusive, "model differential: "+err.Error())
+			} else if bad > 0 {
+				inconclusive = append(inconclusive, fmt.Sprintf("BSI model disagrees with the real library on %d of %d comparisons: the model is not a faithful stand-in (%s)", bad, n, strings.Join(lines, "; ")))
+			}
+		}
+	}
+
 	// ---- translator validation: replay sampled path models natively ----
 	validated := 0
 	var sampleFiles []string
@@ -402,6 +419,7 @@ func cmdCheck(args []string) int {
 			"covers":             covers,
 			"known_findings_hit": knownHit,
 			"rewrite_lemmas":     lemmaResults,
+			"bsi_model_vs_real_library": map[string]int{"comparisons": modelDiffN, "disagreements": modelDiffBad},
 			"inconclusive":       inconclusive,
 			"workers":            nWorkers(),
 			"explanation":        "bounded symbolic execution of the real SSA of /repo (regenerated on this run); every assertion on every feasible path is discharged by an SMT solver for all values of the symbolic inputs within the stated bounds",
